@@ -113,6 +113,10 @@ func (fr *Frame) bigCall(st *State, fn *ssa.Function, args []Value) (Value, bool
 	case "Rsh", "Lsh": // shifts by a constant count; Rsh is an arithmetic shift (floor division), as documented
 		nt := fr.asTerm(args[2])
 		if nt.Op != OConst || !nt.K.IsInt64() || nt.K.Sign() < 0 || nt.K.Int64() > 4096 {
+			if fn.Name() == "Rsh" {
+				// symbolic count: floor(x / 2^n) as the uninterpreted big.hi(x, n) (axiomatised by the contracts that need more)
+				return set(F.App("big.hi", SInt, ld(1), nt))
+			}
 			unsup("big.Int.%s by a non-constant count", fn.Name())
 		}
 		n := nt.K.Int64()
@@ -160,6 +164,30 @@ func (fr *Frame) bigCall(st *State, fn *ssa.Function, args []Value) (Value, bool
 		}
 		v.fresh++
 		return set(F.Var(fmt.Sprintf("big.frombytes!%d", v.fresh), SInt))
+	case "Bytes": // the big-endian bytes of |x|: a fresh slice b with frombytes(b, 0, len(b)) == |x|
+		v.fresh++
+		o := v.newObject(fmt.Sprintf("big.Bytes!%d", v.fresh), types.NewSlice(types.Typ[types.Uint8]), false)
+		arr := F.Var(fmt.Sprintf("big.Bytes!%d@arr", v.fresh), arraySort(SInt))
+		F.VarLo[arr] = big.NewInt(0)
+		F.VarHi[arr] = big.NewInt(255)
+		st.mem[o] = &ArrV{Arr: arr, Elem: types.Typ[types.Uint8]}
+		n := F.FreshRanged("big.Bytes!len", big.NewInt(0), bigMaxLen)
+		st.pc = F.And(st.pc, F.Eq(F.App("big.frombytes", SInt, arr, F.I64(0), n), abs(ld(0))))
+		used()
+		v.assume("math/big: x.Bytes() returns a fresh slice holding the big-endian bytes of |x| (big.frombytes(b, 0, len(b)) == |x|; the recursive meaning of big.frombytes is stated by the contracts that use it)")
+		return &SliceV{Obj: o, Off: F.I64(0), Len: n, Cap: n}, true
+	case "Bits": // the little-endian 64-bit words of |x|: a fresh slice w with fromwords(w, 0, len(w)) == |x|
+		v.fresh++
+		o := v.newObject(fmt.Sprintf("big.Bits!%d", v.fresh), types.NewSlice(types.Typ[types.Uint]), false)
+		arr := F.Var(fmt.Sprintf("big.Bits!%d@arr", v.fresh), arraySort(SInt))
+		F.VarLo[arr] = big.NewInt(0)
+		F.VarHi[arr] = new(big.Int).Sub(pow2(64), big.NewInt(1))
+		st.mem[o] = &ArrV{Arr: arr, Elem: types.Typ[types.Uint]}
+		n := F.FreshRanged("big.Bits!len", big.NewInt(0), bigMaxLen)
+		st.pc = F.And(st.pc, F.Eq(F.App("big.fromwords", SInt, arr, F.I64(0), n), abs(ld(0))))
+		used()
+		v.assume("math/big: x.Bits() is treated as a fresh slice holding the little-endian 64-bit words of |x| (big.fromwords(w, 0, len(w)) == |x|; the slice really aliases x's storage: callers under contract only read it)")
+		return &SliceV{Obj: o, Off: F.I64(0), Len: n, Cap: n}, true
 	case "ModSqrt": // z = a square root of x mod p when one exists (then z is returned), otherwise nil and z unchanged
 		x, pm := ld(1), ld(2)
 		has := F.App("big.hasmodsqrt", SBool, x, pm)
